@@ -64,6 +64,18 @@ RateLow(mdb, q) == FrameRate(q) * mdb * 8 < 15000
 \* lines 1179-1197 (float build): the activity analysis can run
 AnalysisMayRun(S) == S.complexity >= 7 /\ S.Fs >= 16000
 
+\* compute_redundancy_bytes(), lines 1081-1107: bytes offered to a 5 ms redundant frame; 0 = not worth it.
+\* fr = Fs/frame_size of the frame, ch = stream channels.  (C truncates towards zero: with avail < 0 the cap is at
+\* most base/8 <= 4+8*ch, hence 0 without evaluating the quotient.)
+RedBytes(mdb, br, fr, ch) ==
+  LET base  == 40 * ch + 20
+      rb1   == ((3 * (br + base * (200 - fr))) \div 2) \div 1600
+      avail == mdb * 8 - 2 * base
+  IN IF avail < 0 THEN 0
+     ELSE LET cap == ((avail * 240) \div (240 + 48000 \div fr) + base) \div 8
+              rb2 == Min(rb1, cap)
+          IN IF rb2 > 4 + 8 * ch THEN Min(257, rb2) ELSE 0
+
 -----------------------------------------------------------------------------
 (* Packet structure.                                                       *)
 \* line 1616: more than 20 ms outside SILK-only, or more than 60 ms, is coded as several frames
@@ -72,6 +84,22 @@ Multi(q, mode) == (q > 8 /\ mode # MODE_SILK) \/ q > 24
 EncQ(q, mode) == IF ~Multi(q, mode) THEN q
                  ELSE IF mode = MODE_SILK THEN (IF q = 32 THEN 16 ELSE IF q = 48 THEN 24 ELSE 8) ELSE 8
 NbFr(q, mode) == q \div EncQ(q, mode)
+
+\* the byte budget (curr_max, TOC included) of each frame of a packet: lines 1658-1701 and 1747.  sz = payload bytes of
+\* the frames as they left the repacketizer (0 = DTX frame), out = the caller's buffer size, ubr = the user's bitrate
+FrameBudgets(vbr, ubr, out, br, q, encq, nf, sz, mdb) ==
+  IF nf = 1 THEN <<mdb>>
+  ELSE LET repLen == IF vbr = 1 \/ ubr = OPUS_BITRATE_MAX THEN out ELSE Min(CbrBytes(br, q), out)      \* 1660-1665
+           mls    == nf + repLen - (IF nf = 2 THEN 3 ELSE 2 + (nf - 1) * 2)                            \* 1658, 1666
+           per    == Min((3 * br) \div (9600 \div encq), mls \div nf)                                   \* 1694
+           RECURSIVE go(_, _, _)
+           go(i, tot, acc) ==
+             IF i > nf THEN acc
+             ELSE LET cm   == Min(Min(mls - tot, per), 1276)                                          \* 1699-1701
+                      \* what the frame call returned: 1 for a DTX frame, the padded budget under CBR (line 2498)
+                      used == IF sz[i] = 0 THEN 1 ELSE IF vbr = 1 THEN sz[i] + 1 ELSE cm
+                  IN go(i + 1, tot + used, Append(acc, cm))
+       IN go(1, 0, <<>>)
 
 -----------------------------------------------------------------------------
 (* Which layer: lines 1393-1460.  hw = what the heuristics (lines 1416-1446) *)
